@@ -709,17 +709,38 @@ class Body:
             if self.kind in ('closure', 'coroutine') and l == 1:
                 return ('env',)
             return ('arg', l, self.name_of(l))
+        pth = getattr(self, '_path', None)
+        if pth:
+            # along one acyclic path a local holds what its last assignment *before the point of use* gave it (so `x = f(x)` reads
+            # the previous x); positions strictly decrease while resolving, hence no cycles
+            ds = self.defs().get(l, [])
+            dpos = lambda d_: (pth[d_[1]], d_[2] if d_[0] == 'stmt' else 1 << 30)
+            lim = getattr(self, '_use_pos', None) or (1 << 30, 1 << 31)
+            on = [d for d in ds if d[1] in pth and dpos(d) < lim]
+            if on:
+                d = max(on, key=dpos)
+                old = getattr(self, '_use_pos', None)
+                self._use_pos = dpos(d)
+                try:
+                    return self._origin_def(d, depth + 1, seen | {l})
+                finally:
+                    self._use_pos = old
+            if ds and l not in seen and not (1 <= l <= self.argc) and l != 0:
+                # assigned before the path begins: whatever it was computed from was, too
+                old = getattr(self, '_use_pos', None)
+                self._use_pos = (-1, 0)
+                try:
+                    if len(ds) == 1:
+                        return self._origin_def(ds[0], depth + 1, seen | {l})
+                    terms = [self._origin_def(d, depth + 1, seen | {l}) for d in ds]
+                    return terms[0] if all(t == terms[0] for t in terms) else ('phi', terms, l)
+                finally:
+                    self._use_pos = old
         if l in seen:
             return ('local', l)
         ds = self.defs().get(l, [])
         if len(ds) == 0:
             return ('local', l)
-        pth = getattr(self, '_path', None)
-        if len(ds) > 1 and pth:
-            on = [d for d in ds if d[1] in pth]
-            if on:
-                d = max(on, key=lambda d_: (pth[d_[1]], d_[2] if d_[0] == 'stmt' else 1 << 30))
-                return self._origin_def(d, depth + 1, seen | {l})
         if len(ds) > 1:
             seen2 = seen | {l}
             terms = []
